@@ -243,7 +243,7 @@ type PathIndex struct {
 
 func (index PathIndex) DeepCopy() PathIndex {
 	clone := PathIndex{
-		Constant: index.Constant,
+		Constant: deepCopyAny(index.Constant),
 	}
 
 	if index.Argument != nil {
@@ -370,7 +370,7 @@ type AssignmentValue struct {
 
 func (value *AssignmentValue) DeepCopy() AssignmentValue {
 	clone := AssignmentValue{
-		Constant: value.Constant,
+		Constant: deepCopyAny(value.Constant),
 	}
 
 	if value.Argument != nil {
@@ -450,7 +450,7 @@ func (constraint AssignmentConstraint) DeepCopy() AssignmentConstraint {
 	return AssignmentConstraint{
 		Argument:  constraint.Argument.DeepCopy(),
 		Op:        constraint.Op,
-		Parameter: constraint.Parameter,
+		Parameter: deepCopyAny(constraint.Parameter),
 	}
 }
 
